@@ -14,6 +14,9 @@ def programs():
         out += [
             {"observer": obs, "threads": {"app1": A}},
             {"observer": obs, "threads": {"app1": [["schedule", "."], ["start"], ["rmroot"]] + extra + [["stop"], ["stop"], ["join"]]}},
+            # the root disappears and ONE stop() follows (a stop() that raised would leave the threads to a second stop())
+            {"observer": obs, "threads": {"app1": [["schedule", "."], ["start"], ["rmroot"]] + extra + [["stop"], ["join"]]}},
+            {"observer": obs, "threads": {"app1": [["schedule", "."], ["schedule", "d1"], ["start"], ["rmroot"]] + extra + [["unschedule", "d1"], ["stop"], ["join"]]}},
             {"observer": obs, "threads": {"app1": [["schedule", "."], ["start"], ["touch", "f"]] + extra + [["join"]],
                                           "app2": [["stop"]]}},
             {"observer": obs, "threads": {"app1": [["cb_stop"], ["start"], ["touch", "f"]] + extra + [["join"]]}},
@@ -33,13 +36,13 @@ def run_real(c):
     total = 0
     for pat in programs():
         b = 1 if c.thorough else 0
-        if b:
+        if True:
+            # b = 0: every schedule without preemption (a thread runs until it blocks; all orders at the blocking points),
+            # e.g. the application racing ahead of the library threads through rmroot; stop()
             info = {}
             n, recs = explore.dfs(SCEN, pat, b, jobs=c.jobs, cap=40000, info=info)
             if info.get("capped"):
                 c.cov["capped_programs"] = c.cov.get("capped_programs", 0) + 1
-        else:
-            n, recs = 0, []
         base = c.seed * 1000003
         n2, recs2 = explore.sample(SCEN, pat, range(base, base + (400 if c.thorough else 60)), jobs=c.jobs, extra={"stickiness": 0.5})
         n3, recs3 = explore.sample(SCEN, pat, range(base, base + (200 if c.thorough else 30)), kind="pct", jobs=c.jobs,
